@@ -482,6 +482,31 @@ theorem poolFind_eq_aux (rx : Rx) (q : Quirks) (h s p : Bytes) (mps : List Mount
     simp only [poolFind, List.zipIdx_cons, List.findSome?_cons]
     cases hm : mpMatchPtr rx q mp h s p <;> simp [ih]
 
+theorem poolScanApps_eq (rx : Rx) (q : Quirks) (h s p : Bytes) (l : List (Nat × MountPoint)) :
+    poolScanApps rx q h s p l = l.findSome? fun im => (mpMatchPtr rx q im.2 h s p).map fun m => (im.1, m) := by
+  induction l with
+  | nil => rfl
+  | cons im rest ih =>
+    obtain ⟨i, mp⟩ := im
+    simp only [poolScanApps, List.findSome?_cons]
+    cases hm : mpMatchPtr rx q mp h s p <;> simp [ih]
+
+theorem poolScanLegacy_eq (rx : Rx) (q : Quirks) (h s p : Bytes) (dead : List Nat) (l : List (Nat × MountPoint))
+    (result : Option (Nat × Bytes)) :
+    poolScanLegacy rx q h s p dead l result =
+      result.or ((l.filter fun im => !dead.contains im.1).findSome? fun im => (mpMatchPtr rx q im.2 h s p).map fun m => (im.1, m)) := by
+  induction l generalizing result with
+  | nil => cases result <;> rfl
+  | cons im rest ih =>
+    obtain ⟨i, mp⟩ := im
+    simp only [poolScanLegacy, List.filter_cons]
+    by_cases hd : i ∈ dead
+    · simp [hd, ih]
+    · simp only [List.contains_eq_mem, hd, decide_false, Bool.false_eq_true, if_false, Bool.not_false, if_true, List.findSome?_cons]
+      cases result with
+      | some r => simp [ih]
+      | none => cases hm : mpMatchPtr rx q mp h s p <;> simp [ih]
+
 /-! ## the routing relation -/
 
 theorem leafTry_cases {rx : Rx} {req : Option Bytes} {l : Leaf} {url : Bytes} {b : Bool} {ev : Event}
